@@ -15,6 +15,7 @@ import (
 
 func init() {
 	register(&PropertyCheck{ID: "C16", Level: "other", Run: checkC16, Canaries: []Canary{
+		{Name: "encoder-repairs-reserved-flag-bits", Rule: "R16.1", Where: "type code 0x60", Edits: []Edit{{"pubrel.go", "\ti += p.fixed.fill(b, i)      // firstByte header", "\tfixed := p.fixed\n\tif !fixed.Has(QoS1) {\n\t\t// bits 3,2,1 and 0 of the fixed header are reserved and must\n\t\t// be 0,0,1,0 [MQTT-3.6.1-1]\n\t\tfixed = bits(PUBREL | QoS1)\n\t}\n\ti += fixed.fill(b, i)        // firstByte header"}}},
 		{Name: "fixed-header-written-by-a-helper-struct", Silent: true, Edits: []Edit{{"auth.go", "\ti += p.fixed.fill(b, i)      // firstByte header\n\ti += remainingLen.fill(b, i) // remaining length", "\ti += fixedHeader{p.fixed, remainingLen}.fill(b, i)"}, {"disconnect.go", "\ti += p.fixed.fill(b, i)      // firstByte header\n\ti += remainingLen.fill(b, i) // remaining length", "\ti += fixedHeader{p.fixed, remainingLen}.fill(b, i)"}, {"packet.go", "\treturn n + m, err\n}\n", "\treturn n + m, err\n}\n\n// fill writes the first byte and the remaining length at position\n// i. Returns the number of bytes that make up the fixed header.\nfunc (f fixedHeader) fill(b []byte, i int) int {\n\tn := i\n\ti += f.fixed.fill(b, i)        // firstByte header\n\ti += f.remainingLen.fill(b, i) // remaining length\n\treturn i - n\n}\n"}, {"pingreq.go", "\ti += p.fixed.fill(b, i)  // firstByte header\n\ti += vbint(0).fill(b, i) // remaining length none", "\ti += fixedHeader{p.fixed, 0}.fill(b, i) // remaining length none"}, {"pingresp.go", "\ti += p.fixed.fill(b, i)  // firstByte header\n\ti += vbint(0).fill(b, i) // remaining length none", "\ti += fixedHeader{p.fixed, 0}.fill(b, i) // remaining length none"}, {"puback.go", "\ti += p.fixed.fill(b, i)      // firstByte header\n\ti += remainingLen.fill(b, i) // remaining length", "\ti += fixedHeader{p.fixed, remainingLen}.fill(b, i)"}, {"pubcomp.go", "\ti += p.fixed.fill(b, i)      // firstByte header\n\ti += remainingLen.fill(b, i) // remaining length", "\ti += fixedHeader{p.fixed, remainingLen}.fill(b, i)"}, {"pubrec.go", "\ti += p.fixed.fill(b, i)      // firstByte header\n\ti += remainingLen.fill(b, i) // remaining length", "\ti += fixedHeader{p.fixed, remainingLen}.fill(b, i)"}, {"pubrel.go", "\ti += p.fixed.fill(b, i)      // firstByte header\n\ti += remainingLen.fill(b, i) // remaining length", "\ti += fixedHeader{p.fixed, remainingLen}.fill(b, i)"}, {"suback.go", "\ti += p.fixed.fill(b, i)      // firstByte header\n\ti += remainingLen.fill(b, i) // remaining length", "\ti += fixedHeader{p.fixed, remainingLen}.fill(b, i)"}, {"subscribe.go", "\ti += p.fixed.fill(b, i)      // firstByte header\n\ti += remainingLen.fill(b, i) // remaining length", "\ti += fixedHeader{p.fixed, remainingLen}.fill(b, i)"}, {"unsuback.go", "\ti += p.fixed.fill(b, i)      // firstByte header\n\ti += remainingLen.fill(b, i) // remaining length", "\ti += fixedHeader{p.fixed, remainingLen}.fill(b, i)"}, {"unsubscribe.go", "\ti += p.fixed.fill(b, i)      // firstByte header\n\ti += remainingLen.fill(b, i) // remaining length", "\ti += fixedHeader{p.fixed, remainingLen}.fill(b, i)"}}},
 		{Name: "header-helper-sets-a-flag-bit-in-the-first-byte", Rule: "R16.1", Where: "type code", Edits: []Edit{{"auth.go", "\ti += p.fixed.fill(b, i)      // firstByte header\n\ti += remainingLen.fill(b, i) // remaining length", "\ti += fixedHeader{p.fixed, remainingLen}.fill(b, i)"}, {"disconnect.go", "\ti += p.fixed.fill(b, i)      // firstByte header\n\ti += remainingLen.fill(b, i) // remaining length", "\ti += fixedHeader{p.fixed, remainingLen}.fill(b, i)"}, {"packet.go", "\treturn n + m, err\n}\n", "\treturn n + m, err\n}\n\n// fill writes the first byte and the remaining length at position\n// i. Returns the number of bytes that make up the fixed header.\nfunc (f fixedHeader) fill(b []byte, i int) int {\n\tn := i\n\ti += (f.fixed | 1).fill(b, i)        // firstByte header\n\ti += f.remainingLen.fill(b, i) // remaining length\n\treturn i - n\n}\n"}, {"pingreq.go", "\ti += p.fixed.fill(b, i)  // firstByte header\n\ti += vbint(0).fill(b, i) // remaining length none", "\ti += fixedHeader{p.fixed, 0}.fill(b, i) // remaining length none"}, {"pingresp.go", "\ti += p.fixed.fill(b, i)  // firstByte header\n\ti += vbint(0).fill(b, i) // remaining length none", "\ti += fixedHeader{p.fixed, 0}.fill(b, i) // remaining length none"}, {"puback.go", "\ti += p.fixed.fill(b, i)      // firstByte header\n\ti += remainingLen.fill(b, i) // remaining length", "\ti += fixedHeader{p.fixed, remainingLen}.fill(b, i)"}, {"pubcomp.go", "\ti += p.fixed.fill(b, i)      // firstByte header\n\ti += remainingLen.fill(b, i) // remaining length", "\ti += fixedHeader{p.fixed, remainingLen}.fill(b, i)"}, {"pubrec.go", "\ti += p.fixed.fill(b, i)      // firstByte header\n\ti += remainingLen.fill(b, i) // remaining length", "\ti += fixedHeader{p.fixed, remainingLen}.fill(b, i)"}, {"pubrel.go", "\ti += p.fixed.fill(b, i)      // firstByte header\n\ti += remainingLen.fill(b, i) // remaining length", "\ti += fixedHeader{p.fixed, remainingLen}.fill(b, i)"}, {"suback.go", "\ti += p.fixed.fill(b, i)      // firstByte header\n\ti += remainingLen.fill(b, i) // remaining length", "\ti += fixedHeader{p.fixed, remainingLen}.fill(b, i)"}, {"subscribe.go", "\ti += p.fixed.fill(b, i)      // firstByte header\n\ti += remainingLen.fill(b, i) // remaining length", "\ti += fixedHeader{p.fixed, remainingLen}.fill(b, i)"}, {"unsuback.go", "\ti += p.fixed.fill(b, i)      // firstByte header\n\ti += remainingLen.fill(b, i) // remaining length", "\ti += fixedHeader{p.fixed, remainingLen}.fill(b, i)"}, {"unsubscribe.go", "\ti += p.fixed.fill(b, i)      // firstByte header\n\ti += remainingLen.fill(b, i) // remaining length", "\ti += fixedHeader{p.fixed, remainingLen}.fill(b, i)"}}},
 		{Name: "undefined-copies-through-the-raw-data-decoder", Silent: true, Edits: []Edit{{"undefined.go", "\treturn fmt.Sprintf(\"%s %v bytes\",\n\t\tfirstByte(p.fixed).String(), 0,\n\t)\n}\n\nfunc (p *Undefined) Data() []byte { return p.data }\n\nfunc (p *Undefined) WriteTo(w io.Writer) (int64, error) {\n\treturn 0, fmt.Errorf(\"cannot write %T\", p)\n}\n\nfunc (p *Undefined) UnmarshalBinary(data []byte) error {\n\tp.data = make([]byte, len(data))\n\tcopy(p.data, data)", "\t// the size is never known, a constant 0 is shown\n\treturn firstByte(p.fixed).String() + \" 0 bytes\"\n}\n\nfunc (p *Undefined) Data() []byte { return p.data }\n\nfunc (p *Undefined) WriteTo(w io.Writer) (int64, error) {\n\treturn 0, fmt.Errorf(\"cannot write %T\", p)\n}\n\n// UnmarshalBinary keeps a private copy of the given data, see Data.\nfunc (p *Undefined) UnmarshalBinary(data []byte) error {\n\t// rawdata already knows how to copy everything it's given\n\tvar frame rawdata\n\tif err := frame.UnmarshalBinary(data); err != nil {\n\t\treturn err\n\t}\n\tp.data = frame"}}},
@@ -128,25 +129,47 @@ func (p *Prog) firstEmissionFieldByEvaluation(tn string, fill *ssa.Function) (in
 	if st == nil {
 		return 0, false
 	}
-	evs, _, why := p.encoderTrace(st, fill)
-	if why != "" {
+	// … with every value of the four flag bits in the field the constructor puts the type code in (an encoder
+	// that "repairs" reserved bits only shows on a first byte that came from the wire): the first event must be that
+	// very byte, from that very field
+	hf, code, okH := p.headerField(tn)
+	if !okH {
 		return 0, false
 	}
-	for _, e := range evs {
-		if e.Width == 0 {
-			continue
+	field := -1
+	for low := int64(0); low < 16; low++ {
+		st2 := *st
+		st2.Mem = map[string]sv{}
+		for k, v := range st.Mem {
+			st2.Mem[k] = v
 		}
-		pre := st.Recv + ".f"
-		if !strings.HasPrefix(e.Src, pre) {
+		want := code&0xF0 | low
+		st2.Mem[fmt.Sprintf("%s.f%d", st.Recv, hf)] = sv{k: 'i', i: want}
+		evs, _, why := p.encoderTrace(&st2, fill)
+		if why != "" {
 			return 0, false
 		}
-		k, err := strconv.Atoi(e.Src[len(pre):])
-		if err != nil {
+		found := false
+		for _, e := range evs {
+			if e.Width == 0 {
+				continue
+			}
+			pre := st.Recv + ".f"
+			if !strings.HasPrefix(e.Src, pre) || e.Val.k != 'i' || e.Val.i&0xff != want {
+				return 0, false
+			}
+			k, err := strconv.Atoi(e.Src[len(pre):])
+			if err != nil || (field >= 0 && field != k) {
+				return 0, false
+			}
+			field, found = k, true
+			break
+		}
+		if !found {
 			return 0, false
 		}
-		return k, true
 	}
-	return 0, false
+	return field, field >= 0
 }
 
 // firstEmissionValue: the value (in fn's own terms) whose encoding fn emits at its entry offset.  When that
